@@ -57,12 +57,16 @@ def table():
     for n in (0, 1, 2, 3):
         add('polygamma%d' % n, (lambda n: lambda x: mp.psi(n, x))(n), 'gamma', None,
             glob=(lambda n: lambda x: sp.polygamma(n, x))(n), meth=(lambda n: lambda x: UTPM.polygamma(n, x))(n))
-    for a, b in ((1.5, 2.25), (1.0, 1.5), (0.5, 0.75), (2.0, 0.75)):
+    for a, b in ((1.5, 2.25), (1.0, 1.5), (0.5, 0.75), (2.0, 0.75), (-1.0, 1.5), (-2.0, 0.75), (-0.5, 1.25)):
         add('hyperu_%g_%g' % (a, b), _hy(a, b), 'gamma', None,
             glob=(lambda a, b: lambda x: sp.hyperu(a, b, x))(a, b), meth=(lambda a, b: lambda x: UTPM.hyperu(a, b, x))(a, b))
     for r in (0, 1, 2, 3, 5, 7):
         add('pow_int_%d' % r, (lambda r: lambda x: x ** r)(r), 'R', 'R', op=(lambda r: lambda x: x ** r)(r),
             npint=(lambda r: lambda x: x ** np.int64(r))(r))
+    for r in (1, 2, 3, 4):          # polynomials are smooth at 0: base points with exact zeros, python and numpy integer exponents
+        add('pow_int_zero_base_%d' % r, (lambda r: lambda x: x ** r)(r), 'Rzero', None, op=(lambda r: lambda x: x ** r)(r),
+            npint=(lambda r: lambda x: x ** np.int64(r))(r), npint32=(lambda r: lambda x: x ** np.int32(r))(r))
+    add('square_zero_base', lambda x: x * x, 'Rzero', None, glob=algopy.square, mul=lambda x: x * x)
     for r in (-1, -2, -3):
         add('pow_negint_%d' % (-r), (lambda r: lambda x: x ** r)(r), 'nz', 'nz', op=(lambda r: lambda x: x ** r)(r))
     for r in (0.5, 2.5, -1.5, 1.0 / 3, 3.0):
@@ -170,7 +174,7 @@ def run_case(ctx, case):
         if cplx and isinstance(e, TypeError):
             ctx.skip('unsupported:complex:' + name)
             return
-        if ename in ('npy', 'npint', 'npf'):
+        if ename == 'npy':
             ctx.skip('unsupported:numpy-dispatch:' + name)
             return
         ctx.violation('%s:raises:%s:%s' % (name, ename, type(e).__name__),
